@@ -21,9 +21,26 @@ Definition att_supported (k : dkind) (q : query) : Prop :=
   | _, _ => False
   end.
 
+(* the semantics whose extensions the solver of kind k reasons about *)
+Definition kind_spec_sem (k : dkind) : sem := match k with KCoAtt _ _ => CO | _ => ST end.
+Definition query_pol (q : query) : bool := match q with QDC => true | _ => false end.
+
 Section AttDefs.
 Variable L : Type.
 Variable leqb : L -> L -> bool.
+
+(* states reachable with ONE SAT oracle and the SAT program state threaded through the whole history:
+   the solver is created on some program state, updates do not touch the SAT side, every query runs
+   on the program state its predecessor left behind and is recorded only if it returned *)
+Inductive areach (oracle : nat -> cnf -> list lit -> answer) (k : dkind)
+  : dsolver L -> Prog.st -> list (op L) -> Prop :=
+| areach_new : forall ps0 s ps, dyn_new L leqb k ps0 = Done s ps -> areach oracle k s ps []
+| areach_update : forall s ps os o,
+    areach oracle k s ps os -> areach oracle k (fst (dyn_update L leqb s o)) ps (os ++ [o])
+| areach_query : forall s ps os thr fuel q cert l s' a ps',
+    areach oracle k s ps os ->
+    dyn_query oracle L leqb thr fuel s q cert l ps = Done (s', a) ps' ->
+    areach oracle k s' ps' os.
 
 (* ---------------------------------------------------------------- the tables between two calls *)
 (* n = a_n e argument slots (variables 1..n), then n*n attack variables (n+1 .. n+n*n), then, for
